@@ -359,7 +359,9 @@ CORPUS = [
        fixed_data={"r": [3, 0], "c": [-1, -3], "d": [-2, -1]}),
     _P("creation", [ph("x", (3, 3))],
        lambda L, x: {"z": L.zeros((3, 3)) + x, "o": L.ones((3,), dtype=I32) * 2, "f": L.full((2, 3), 7.5), "eye": L.eye(3) * x,
-                     "eyek": L.eye(3, 4, k=1), "ar": L.arange(3) * 2 + x, "zl": L.zeros_like(x), "ol": L.ones_like(x) + x}),
+                     "eyek": L.eye(3, 4, k=1), "ar": L.arange(3) * 2 + x, "zl": L.zeros_like(x), "ol": L.ones_like(x) + x,
+                     # descending and strided ranges
+                     "arn": L.arange(5, 0, -1), "arn2": L.arange(10, 0, -2) * 2, "ars": L.arange(1, 8, 3)}),
     _P("like_dtype_override", [ph("x", (3,)), ph("w", (2, 2), F32)],
        # (pytato's zeros_like is annotated to take an np.dtype instance, not a scalar type)
        lambda L, x, w: {"zi": L.zeros_like(x, dtype=np.dtype(I32)) + 1, "of": L.ones_like(x, dtype=np.dtype(F32)) * 3,
